@@ -436,6 +436,7 @@ type c06case struct {
 	Variant int       // how nil hooks are spelled: 0 no option, 1 explicit nil / OnFatal
 	Stacks  []*c06ws  // nil, or for every leaf (pre-order) what sits between the IO core and its recording sinks
 	Noise   *c06noise // nil, or who logs in between (and the logger's name)
+	Fails   []int     // the leaves whose sink fails every Write (c06_fwd.go); the tree may hold wrappers (tag 9)
 }
 
 // ---------- sink stacks ----------
@@ -677,17 +678,29 @@ func (cs *c06case) input() SX {
 	for i, cl := range cs.Calls {
 		calls[i] = cl.sx()
 	}
-	if cs.Stacks == nil && cs.Noise == nil {
-		return L(fromJ(cs.Tree).sx(), L(cells...), Bool(cs.Dev), cs.OnPanic.sx(), cs.OnFatal.sx(), Bool(cs.Child), L(calls...))
+	tree := c06treeSX(fromJ(cs.Tree))
+	if cs.Stacks == nil && cs.Noise == nil && len(cs.Fails) == 0 {
+		return L(tree, L(cells...), Bool(cs.Dev), cs.OnPanic.sx(), cs.OnFatal.sx(), Bool(cs.Child), L(calls...))
 	}
 	stacks := make([]SX, len(cs.Stacks))
 	for i, d := range cs.Stacks {
 		stacks[i] = d.sx()
 	}
-	if cs.Noise == nil {
-		return L(fromJ(cs.Tree).sx(), L(cells...), Bool(cs.Dev), cs.OnPanic.sx(), cs.OnFatal.sx(), Bool(cs.Child), L(calls...), L(stacks...))
+	if cs.Noise == nil && len(cs.Fails) == 0 {
+		return L(tree, L(cells...), Bool(cs.Dev), cs.OnPanic.sx(), cs.OnFatal.sx(), Bool(cs.Child), L(calls...), L(stacks...))
 	}
-	return L(fromJ(cs.Tree).sx(), L(cells...), Bool(cs.Dev), cs.OnPanic.sx(), cs.OnFatal.sx(), Bool(cs.Child), L(calls...), L(stacks...), cs.Noise.sx())
+	var noise SX = L()
+	if cs.Noise != nil {
+		noise = cs.Noise.sx()
+	}
+	if len(cs.Fails) == 0 {
+		return L(tree, L(cells...), Bool(cs.Dev), cs.OnPanic.sx(), cs.OnFatal.sx(), Bool(cs.Child), L(calls...), L(stacks...), noise)
+	}
+	fails := make([]SX, len(cs.Fails))
+	for i, id := range cs.Fails {
+		fails[i] = I(id)
+	}
+	return L(tree, L(cells...), Bool(cs.Dev), cs.OnPanic.sx(), cs.OnFatal.sx(), Bool(cs.Child), L(calls...), L(stacks...), noise, L(fails...))
 }
 
 func c06leafIDs(n *c05node, out *[]int) {
@@ -716,6 +729,7 @@ type c06rt struct {
 	custom func(k int)                             // a custom terminal hook (kind 5 or 6) runs
 	hook6  func(k int)                             // ... of kind 6
 	saw    func(l zapcore.Level, msg, name string) // the entry an entry hook was handed / a custom terminal hook found
+	rec    func(kind, id int)                      // c06_fwd.go: Write (0) / Sync (1) of a failing sink, a hook set beneath a wrapper ran (3)
 }
 
 // a custom terminal hook: looks at the entry it is handed, at once
@@ -922,7 +936,14 @@ func c06logger(cs *c06case, env *c05env, rt *c06rt) *zap.Logger {
 			return c06noisySink{&c05sink{env, id}}
 		}
 	}
-	core := env.build(fromJ(cs.Tree))
+	bld := &c06bld{env: env, fails: map[int]bool{}, rec: rt.rec}
+	for _, id := range cs.Fails {
+		bld.fails[id] = true
+	}
+	if bld.rec == nil {
+		bld.rec = func(int, int) {}
+	}
+	core := bld.build(fromJ(cs.Tree), false)
 	var opts []zap.Option
 	if cs.Dev {
 		opts = append(opts, zap.Development())
@@ -1057,6 +1078,7 @@ func c06run(cs *c06case) SX {
 		custom: func(k int) { customRan = k; snapshot() },
 		hook6:  func(k int) { hook6Ran = k },
 		saw:    func(l zapcore.Level, msg, name string) { seen = append(seen, L(I(int(l)), Str(msg), Str(name))) },
+		rec:    func(kind, id int) { env.events = append(env.events, c05ev{[]int{0, 2, 0, 3, 4}[kind], id}) },
 	})
 	outs := make([]SX, len(cs.Calls))
 	for i, cl := range cs.Calls {
@@ -1072,7 +1094,7 @@ func c06run(cs *c06case) SX {
 		}
 		evs := make([]SX, len(env.events))
 		for k, e := range env.events {
-			evs[k] = L(I([]int{0, 2, 1}[e.kind]), I(e.id))
+			evs[k] = L(I([]int{0, 2, 1, 3, 4}[e.kind]), I(e.id))
 		}
 		term := o.term()
 		if customRan >= 0 && o.returned && hook6Ran < 0 {
@@ -1157,6 +1179,7 @@ func c06child(*Ctx) {
 		custom: func(k int) { fmt.Fprintf(evf, "T 3 %d\n", k) },
 		hook6:  func(k int) { fmt.Fprintf(evf, "H %d\n", k) },
 		saw:    func(l zapcore.Level, msg, name string) { fmt.Fprintf(evf, "E %d %x/%x\n", int(l), msg, name) },
+		rec:    func(kind, id int) { fmt.Fprintf(evf, "%d %d\n", kind, id) },
 	})
 	cl := cs.Calls[0]
 	done := make(chan bool, 1)
@@ -2157,7 +2180,137 @@ func c06makePlan(c *Ctx, emitTable bool) *c06plan {
 		}
 		plan.add(cs, "random", "")
 	}
+	c06fwdPlan(c, plan, table, hooks, dstacks)
 	return plan
+}
+
+// ---- composite cores written through their own Write method; cores whose Write fails (c06_fwd.go) ----
+func c06fwdPlan(c *Ctx, plan *c06plan, table []c06method, hooks []c06hook, dstacks []*c06ws) {
+	fshapes := c06fwdShapes()
+	pairs := c06terminalPairs(table)
+	// hook settings under which Panic / Fatal stay in the process
+	fPanic := []c06hook{{5, 7, 0}, {0, 0, 0}, {2, 0, 0}, {3, 0, 0}, {1, 0, 0}}
+	fFatal := []c06hook{{5, 9, 0}, {2, 0, 0}, {3, 0, 0}}
+	// (forward) in-process: every composition x failing position, hook settings and development rotating; every
+	// method at every terminal level it can reach, each with a message of its own - twice in a row where a sampler
+	// sits above a wrapper (the second one is dropped: the wrapper and everything beneath it is excused) - between
+	// entries below the terminal levels; every third case with sink stacks below all leaves (entries shorter and
+	// longer than the buffers): what the healthy sinks have not committed is read at the moment control is lost
+	for k, sh := range fshapes {
+		cs := &c06case{Tree: toJ(sh.t), Cells: sh.cells, Fails: sh.fails, Dev: k%3 != 2, OnPanic: fPanic[k%len(fPanic)], OnFatal: fFatal[(k/2)%len(fFatal)], Variant: k % 2}
+		if k%3 == 1 {
+			leaves := c06allLeafIDs(sh.t)
+			for j := range leaves {
+				cs.Stacks = append(cs.Stacks, dstacks[(k+3*j)%len(dstacks)])
+			}
+			cs.Calls = c06stackCalls(table, cs, k)
+		} else {
+			for _, cl := range c06noiseCalls(table, cs, k) {
+				cl.N = false
+				cs.Calls = append(cs.Calls, cl)
+				if sh.samp && cl.L >= 3 {
+					cs.Calls = append(cs.Calls, cl)
+				}
+			}
+		}
+		plan.add(cs, "forward", "")
+	}
+	// (forward-all) a few compositions under every method x every level x the message space, as the directed class
+	for k, si := range []int{0, 7, 15, 30, 44} {
+		sh := fshapes[si%len(fshapes)]
+		cs := &c06case{Tree: toJ(sh.t), Cells: sh.cells, Fails: sh.fails, Dev: k%2 == 0, OnPanic: hooks[k%len(hooks)], OnFatal: fFatal[k%len(fFatal)], Variant: k % 2}
+		cs.Calls = c06allCalls(table, cs, true, len(plan.items), false)
+		plan.add(cs, "forward-all", "")
+	}
+	// (child-forward) real child processes with the default actions: the IO leaves write through
+	// BufferedWriteSyncers into files (every third case: through directed sink stacks into the files of the
+	// recording sinks); exit status / panic message observed from outside, the files read afterwards: the file of
+	// every healthy core the entry had to reach holds the line, whichever cores failed before it
+	nc := 0
+	for k, sh := range fshapes {
+		reps := 1
+		if c.Thorough {
+			reps = 4
+		}
+		for rep := 0; rep < reps; rep++ {
+			tc := pairs[(nc*5+k)%len(pairs)]
+			tc.T = []byte(c06msg)
+			if tc.M.Recv == 4 {
+				tc.V = nc % 8
+			} else {
+				tc.A = nc % 3
+			}
+			cs := &c06case{Tree: toJ(sh.t), Cells: sh.cells, Fails: sh.fails, Dev: nc%7 != 6 || tc.L != 3, Child: true, Variant: nc % 2, Calls: []c06call{tc}}
+			if nc%4 == 1 {
+				cs.OnFatal, cs.OnPanic = c06hook{1, 0, 0}, c06hook{1, 0, 0}
+			}
+			if nc%3 == 2 {
+				for j := range c06allLeafIDs(sh.t) {
+					cs.Stacks = append(cs.Stacks, dstacks[(nc+2*j)%len(dstacks)])
+				}
+			}
+			nc++
+			plan.add(cs, "child-forward", "")
+		}
+	}
+	// (random-forward) seeded random trees (C05's generator, samplers that really drop) with wrappers around random
+	// nodes and random leaves failing x random hook settings x development, half of them with random sink stacks;
+	// every method at the terminal levels plus a sparse sample of everything else
+	n := 150
+	if c.Thorough {
+		n = 4000
+	}
+	fr := NewRNG(c.Seed ^ 0xf07a4d).Fork()
+	for k := 0; k < n; k++ {
+		g := c05newGen(fr.Fork())
+		g.dropping = k%3 != 2
+		t := g.tree(g.r.Range(1, 4))
+		next := 100
+		t = c06randFwd(g.r, t, &next, []int{15, 30, 50}[k%3])
+		if !c06hasFwd(t) {
+			t = fwdN(t, 100)
+		}
+		cs := &c06case{Tree: toJ(t), Cells: g.cells, Dev: g.r.Bool(), Variant: g.r.Intn(2)}
+		leaves := c06allLeafIDs(t)
+		for _, id := range leaves {
+			if g.r.Chance(30) {
+				cs.Fails = append(cs.Fails, id)
+			}
+		}
+		cs.OnPanic, cs.OnFatal = hooks[g.r.Intn(len(hooks))], hooks[g.r.Intn(len(hooks))]
+		if g.r.Chance(20) {
+			cs.OnFatal = c06hook{Kind: 6, K: 12, Mode: g.r.Intn(4)}
+		}
+		if g.r.Chance(20) {
+			cs.Noise = &c06noise{Name: []string{"", "main"}[g.r.Intn(2)], Nested: g.r.Intn(3), Yields: g.r.Intn(2), Conc: []int{0, 0, 1}[g.r.Intn(3)]}
+		}
+		if g.r.Bool() {
+			cs.Stacks = []*c06ws{}
+			for range leaves {
+				cs.Stacks = append(cs.Stacks, c06randStack(g.r, 3))
+			}
+		}
+		for _, cl := range c06allCalls(table, cs, true, k, true) {
+			def := cl.A == 0 && cl.V == 0 && string(cl.T) == c06msg
+			switch {
+			case def && (cl.L >= 3 && cl.L <= 5 || g.r.Chance(15)):
+			case !def && g.r.Chance(1):
+			default:
+				continue
+			}
+			if cs.Stacks != nil && cl.M.Recv != 3 && g.r.Chance(20) {
+				cl.T = c06longText(g.r.Range(1, 40)*g.r.Range(1, 30), k)
+				if cl.A == 1 && !(cl.M.Recv == 4 && cl.V>>1 == 3) {
+					cl.A = 0
+				}
+			}
+			cs.Calls = append(cs.Calls, cl)
+			if g.r.Chance(30) {
+				cs.Calls = append(cs.Calls, cl) // the same entry again: a sampler above a wrapper may drop it
+			}
+		}
+		plan.add(cs, "random-forward", "")
+	}
 }
 
 func init() {
